@@ -17,7 +17,7 @@ from vpkit import common, pairs, zoo
 
 ID = "C32"
 N = {"quick": 200, "thorough": 5000}
-BUDGET = {"quick": 240.0, "thorough": 1500.0}
+BUDGET = {"quick": 240.0, "thorough": 700.0}
 RULE = ("case = (node and mutation metadata kind out of none / raw bytes / permissive JSON / restrictive "
         "JSON / required foreign field / struct with and without mn,vr / schema but no bytes / JSON whose "
         "validity depends on row values (late ill-typed row, maximum on mn), set_metadata False/None/True, "
